@@ -246,7 +246,7 @@ func (c *Ctx) handleViolation(job SymJob, v gosym.Violation, key string) {
 		// the native run tripped over a vacuity guard of the harness, not over the property
 		status = "not-confirmed"
 	}
-	if status == "reproduced" && strings.TrimSpace(msg) != strings.TrimSpace(v.What) {
+	if status == "reproduced" && assertionID(msg) != assertionID(v.What) {
 		// the same inputs fail natively, but on another assertion than in the engine: the two
 		// disagree about what happens on this path, so neither is believed
 		status = "failed-differently"
@@ -622,4 +622,14 @@ func (c *Ctx) CrossCheck() {
 		}
 	}
 	c.Extra["cross_solver"] = map[string]int{"queries_sampled": len(qs), "answers_compared": checked, "disagreements": disagreements}
+}
+
+// assertionID is the fixed part of an assertion message (what follows the first " (" is
+// detail such as the text of a runtime panic, which the engine and the Go runtime word differently).
+func assertionID(msg string) string {
+	msg = strings.TrimSpace(msg)
+	if k := strings.Index(msg, " ("); k >= 0 {
+		msg = msg[:k]
+	}
+	return msg
 }
